@@ -765,10 +765,12 @@ def run_backpressure(ctx, nt):
 def run_known_ids(ctx, nt, th):
     rng = ctx.subrng('ids')
     maxlen = known_window(th)
+    # the guarantee is judged against the window of the pinned tree at least: a smaller window forgets own messages earlier
+    win = max(maxlen, PINNED_WINDOW)
     for k in range(ctx.n(30, 300)):
-        nids = rng.choice([3, 10, maxlen + 5, 2 * maxlen])
+        nids = rng.choice([3, 10, win // 2, win + 5, 2 * win])
         evs = []
-        for _ in range(rng.randint(1, 3 * maxlen if nids > maxlen else 40)):
+        for _ in range(rng.randint(1, 3 * win if nids > 40 else 40)):
             evs.append((rng.choice(['out', 'recv', 'recv']), f'id{rng.randrange(nids)}'))
         # implementation: real deque + the membership test / appendleft of _run_q_read and add_outbound_message
         th2 = _mk_thread()[1]
@@ -790,7 +792,7 @@ def run_known_ids(ctx, nt, th):
                 if mid in own and impl[-1] == 'dispatch':
                     # ids pushed onto the bounded window since the registration (every `out`, every dispatched `recv`)
                     since = sum(1 for j in range(own[mid] + 1, i) if evs[j][0] == 'out' or impl[j] == 'dispatch')
-                    if since < maxlen:
+                    if since < win:
                         ctx.fail('own-message-dispatched', f'own id {mid} dispatched after only {since} further ids were remembered',
                                  {'events': evs[:i + 1], 'maxlen': maxlen})
             lines.append(f'{kind} {mid}')
